@@ -649,6 +649,9 @@ func genAll(r *lib.Rng, n int, thorough bool) {
 	case "starget":
 		genSTargets(r, 40)
 		return
+	case "overlap":
+		genOverlaps(r, 30)
+		return
 	case "own":
 		for i := 0; i < 5; i++ {
 			runOwn(r)
@@ -663,6 +666,7 @@ func genAll(r *lib.Rng, n int, thorough bool) {
 	}
 	genTargets(r, nt)
 	genSTargets(r, nt)
+	genOverlaps(r, 3*no)
 	if os.Getenv("C20_QUIC") != "0" { // on by default since the defect (D-C20b) is repaired in /repo
 		nq := 150
 		if thorough {
